@@ -2,6 +2,7 @@
     Statements only; every proof is [exact <lemma>]. *)
 From Srtla Require Import Base Constants Reconnect ReconShell ReconStep Mon_C08 Run_C08.
 From Srtla Require Import ReconnectP ReconStepP C08P C08LiveP.
+From Srtla Require Shape.
 Local Open Scope Z_scope.
 
 (** the literals the property text names, against the regenerated constants *)
@@ -203,3 +204,13 @@ Example C08_rejoin_bound_nonvacuous :
   map (fun x => (fst (fst x), l_gen (snd (fst x)), snd x)) (run_ticks 0 l reg0 [3000; 4000; 5000; 6000; 7000]) =
   [(3000, 1, []); (4000, 1, []); (5000, 1, []); (6000, 1, []); (7000, 2, [2])].
 Proof. vm_compute. repeat split; try discriminate; try reflexivity; try lia. Qed.
+
+
+(** Lexical facts about the event loop, which no check can run (src/sender/mod.rs, uplink.rs),
+    regenerated from the source on every run: the housekeeping arm logs a failed pass and carries on
+    — the model's "retried for ever" is about passes that keep coming — and the reader task of a
+    replaced socket is aborted before the new one starts, so nothing that arrives on the old socket
+    can count as "heard" on the re-created link. *)
+Theorem shape_ok_C08 :
+  Shape.loop_housekeeping_error_logged_not_fatal = true /\ Shape.reader_restart_aborts_old_reader = true.
+Proof. split; reflexivity. Qed.
